@@ -164,7 +164,7 @@ fn caps_chain(
 }
 
 // one random member of family (fi mod 3): 0 castling, 1 en passant, 2 promotion
-fn family_member(t: &Tables, rng: &mut StdRng, fi: usize) -> Option<BoardState> {
+pub fn family_member(t: &Tables, rng: &mut StdRng, fi: usize) -> Option<BoardState> {
     for _try in 0..200 {
         let mut pcs: Vec<(u32, u32)> = Vec::new();
         let mut cr = 0u32;
